@@ -14,7 +14,7 @@ import (
 func init() {
 	register(&propDef{
 		ID:          "C13",
-		Explanation: "The children slot is a mutable field of the shared per-render context value; the property is a typestate (the slot is empty whenever a callee that was given no block starts). Decides: R1 every emitted template body reads the slot into a local and clears it before rendering any node, child-block closures leave it alone, and `{ children... }` renders that local (GEM, all emission paths); R2 templ.WithChildren is emitted only around the ctx of a block call and carries the closure emitted for that very call, calls without a block pass ctx unchanged, and the dispatcher routes calls without children to the plain emission; R3 every hand-written component body in packages templ and templ/runtime that renders other components or reads the slot clears it first, on every path (go/cfg dominance); R4 after a block call returns the slot is empty — the call-site emission clears it or every in-repo component body does. R6 a render has one state object: it is stored under the context key by InitializeContext only (and only when absent) and never copied by value, so clearing the children slot is seen by the whole render. R7 (= C10.R4) a child block renders into a buffer acquired for the writer its caller hands it, so the block's HTML appears where the callee places its slot; R8 the parser decides that a call has a child block only from a brace on the call's own line (the lookahead skips spaces and tabs, not line breaks). NOT decided: rendered bytes of concrete call trees; user-written components outside this module. R9 no package-level context.Context is used to carry the children slot (shared between all callers).",
+		Explanation: "The children slot is a mutable field of the shared per-render context value; the property is a typestate (the slot is empty whenever a callee that was given no block starts). Decides: R1 every emitted template body reads the slot into a local and clears it before rendering any node, child-block closures leave it alone, and `{ children... }` renders that local (GEM, all emission paths); R2 templ.WithChildren is emitted only around the ctx of a block call and carries the closure emitted for that very call, calls without a block pass ctx unchanged, and the dispatcher routes calls without children to the plain emission; R3 every hand-written component body in packages templ and templ/runtime that renders other components or reads the slot clears it first, on every path (go/cfg dominance); R4 after a block call returns the slot is empty — the call-site emission clears it or every in-repo component body does. R6 a render has one state object: it is stored under the context key by InitializeContext only (and only when absent) and never copied by value, so clearing the children slot is seen by the whole render. R7 (= C10.R4) a child block renders into a buffer acquired for the writer its caller hands it, so the block's HTML appears where the callee places its slot; R8 the parser decides that a call has a child block only from a brace on the call's own line (the lookahead skips spaces and tabs, not line breaks). NOT decided: rendered bytes of concrete call trees; user-written components outside this module. R9 no package-level context.Context is used to carry the children slot (shared between all callers). R10 the methods of ComponentHandler (and their helpers) do not touch the children slot of the request's context (nor create the render state).",
 		Assumptions: []string{"components outside this module follow the same read-then-clear discipline as generated code"},
 		Trusted:     []string{"go/types", "go/parser", "x/tools go/packages, go/cfg"},
 		Run:         runC13,
@@ -24,6 +24,7 @@ func init() {
 func runC13(c *Ctx) {
 	c.load(".", "./runtime", "./generator", "./parser/v2", "./turbo")
 	noPackageLevelContext(c, "C13.R9", ".", "runtime", "turbo")
+	handlerHandsTheRequestContextOn(c, "C13.R10")
 	renderStateSingle(c, "C13.R6")
 	gBufferOwnership(c, "C13.R7")
 	blockBraceOnSameLine(c, "C13.R8")
